@@ -350,6 +350,12 @@ def _run_variant(args):
             elif kind == "reformat":
                 open(path, "w").write(ast.unparse(ast.parse(src)))
                 applied += 1
+            elif kind == "silent-patch":
+                import subprocess
+                r = subprocess.run(["patch", "-p1", "-s", "-f", "-d", tmp, "-i", old], capture_output=True, text=True)
+                if r.returncode == 0:
+                    applied += 1
+                break
             elif kind == "silent-edit":
                 new_, _, append = new.partition("\x00")
                 if src.count(old) == count:
@@ -384,6 +390,14 @@ def run_for(prop, mod, project):
     for (vid, props, rel, old, new, append) in SILENT_EDITS:
         if prop in props:
             jobs.append((prop, root, "silent-edit", vid, [(rel, old, new + "\x00" + append, 1)]))
+    # behaviour-preserving patches kept under /verif/silent/<name>/patch.diff
+    # (maintainer-style refactorings): every check has to stay silent on each
+    sdir = os.path.join(os.path.dirname(os.path.dirname(os.path.abspath(__file__))), "silent")
+    if os.path.isdir(sdir):
+        for name in sorted(os.listdir(sdir)):
+            pf = os.path.join(sdir, name, "patch.diff")
+            if os.path.exists(pf):
+                jobs.append((prop, root, "silent-patch", "patch:" + name, [("skactiveml/__init__.py", pf, None, 0)]))
     jobs.append((prop, root, "rename", "rename-locals", [(rel, fn, None, 0) for rel, fn in RENAME_TARGETS]))
     allpy = []
     for dp, dn, fns in os.walk(os.path.join(root, PKG)):
